@@ -16,13 +16,15 @@ ENC = ["_dbus_header_set_field_basic", "_dbus_header_delete_field", "_dbus_heade
        "_dbus_type_writer_write_reader_partial", "writer_write_reader_helper", "apply_and_free_fixups", "_dbus_type_writer_append_array", "_dbus_type_writer_recurse", "_dbus_type_writer_unrecurse",
        "_dbus_type_writer_write_basic", "_dbus_marshal_write_basic", "_dbus_marshal_set_basic", "_dbus_marshal_read_basic", "_dbus_string_replace_len", "_dbus_string_insert_alignment", "_dbus_string_delete"]
 def job(op, shape, order, field=0, nl=0, tiers=("quick", "thorough"), koom=0, prefill=0):
-    opn = {0: "strip", 1: f"set{field}.len{nl}", 2: f"delete{field}", 3: f"setu{field}"}[op]
-    what = {0: "strip unknown fields", 1: f"set string-like field {field} to a {nl}-byte value", 2: f"delete field {field}", 3: f"set uint32 field {field}"}[op]
+    opn = {0: "strip", 1: f"set{field}.len{nl}", 2: f"delete{field}", 3: f"setu{field}", 4: "far"}[op]
+    what = {0: "strip unknown fields", 1: f"set string-like field {field} to a {nl}-byte value", 2: f"delete field {field}", 3: f"set uint32 field {field}",
+            4: "no edit; the reader's reported value positions are shifted by a symbolic multiple of 8 in [0, 2^27 - 256] (a header up to the message size limit): every field is found at exactly that position"}[op]
     return Job(name=f"{'oom' + str(koom) if koom else ('cached' if prefill else 'edit')}.{opn}.S{shape}.{'le' if order == 'l' else 'be'}", group="C12.oom" if koom else "C12.edit", harness="harness/C12_edit.c",
-               defines=dict({"OP": op, "SHAPE": shape, "ORDER": "'%s'" % order, "FIELD": field, "NL": nl}, **({"KOOM": koom} if koom else {}), **({"PREFILL": 1} if prefill else {})), real=REAL, env=["assert_stubs.c", "mem.c", "memfuncs.c", "pool_lock.c"],
+               defines=dict({"OP": op, "SHAPE": shape, "ORDER": "'%s'" % order, "FIELD": field, "NL": nl}, **({"KOOM": koom} if koom else {}), **({"PREFILL": 1} if prefill else {}), **({"POSOFF": 1} if op == 4 else {})), real=REAL, env=["assert_stubs.c", "mem.c", "memfuncs.c", "pool_lock.c"],
                checks="assert", unwind=170, timeout=600, tiers=tiers,
                extra=["--object-bits", "12", "--max-field-sensitivity-array-size", "200"], encodes=ENC,
-               stubs=["_dbus_string_init = fixed 160-byte pool buffers (R19); all other DBusString code real", "strlen in marshal_string / marshal_signature = checked oracle reading the wire length prefix (its answer is an obligation)"],
+               stubs=["_dbus_string_init = fixed 160-byte pool buffers (R19); all other DBusString code real", "strlen in marshal_string / marshal_signature = checked oracle reading the wire length prefix (its answer is an obligation)"]
+                     + (["_dbus_type_reader_get_value_pos as called from dbus-marshal-header.c = the real function's result plus a symbolic offset K (R24: a header whose fields lie K bytes further along)"] if op == 4 else []),
                assumes=["no allocation failure", "string-like values contain no NUL (C strings)"],
                bounds=(f"allocation number {koom} of the edit fails; " if koom else "") + ("field cache filled by a getter before the edit; " if prefill else "") + f"byte order {'little' if order == 'l' else 'big'}; header layout [{SHAPES[shape]}] with every value byte, flags, type, serial and body length symbolic; edit: {what}",
                shape=f"{what} on layout {shape}")
@@ -40,6 +42,9 @@ def jobs(tier):
                 J.append(job(2, s, o, f, tiers=("quick", "thorough") if o == "lB"[(s + f) % 2] else ("thorough",)))
             for f in (5, 9):
                 J.append(job(3, s, o, f, tiers=("quick", "thorough") if o == "lB"[(s + f) % 2] else ("thorough",)))
+    # ---- far headers: field positions anywhere up to the message size limit survive the field-position cache (seed C02-2: position narrowed to 16 bits)
+    for s_, o in ((0, "l"), (5, "B"), (3, "l"), (2, "B")):
+        J.append(job(4, s_, o))
     # ---- the same kinds of edit from a state in which a getter has filled the field-position cache (stale cache entries must not survive an edit)
     for s_, o, op, f, nl in ((0, "l", 2, 1, 0), (0, "B", 2, 3, 0), (1, "l", 2, 6, 0), (5, "B", 2, 3, 0), (5, "l", 2, 10, 0), (3, "B", 2, 5, 0), (0, "l", 1, 1, 8), (1, "B", 1, 6, 1), (5, "l", 1, 3, 8), (2, "B", 0, 0, 0), (1, "l", 0, 0, 0), (3, "l", 3, 5, 0)):
         J.append(job(op, s_, o, f, nl, prefill=1))
